@@ -12,7 +12,7 @@ from ..alg import Sym, is_zero, Unsupported
 from ..flow import lexically_inside, Flow
 
 SCORES = "typhon/retrieval/scores.py"
-EXPECT = {"C19.exact": 5, "C19.pinball": 4, "C19.shapes": 1, "C19.mape": 6, "C19.bias": 6}
+EXPECT = {"C19.exact": 5, "C19.pinball": 5, "C19.shapes": 1, "C19.mape": 6, "C19.bias": 6}
 
 
 def _elementwise(ctx, fname):
@@ -148,6 +148,42 @@ def rule_pinball(ctx):
            "the quantile fractions are used unchanged (a dtype cast to the estimates' type truncates them for integer data)",
            node=tv if tv is not None else f.node, func=f)
     ctx.models.append({"rule": "C19.pinball", "cases": 3, "identity": "three order cases of estimate vs observation"})
+    # column j of the estimates stays paired with taus[j], row i with observation i: the arguments are only re-shaped
+    REORDER = ("sort", "argsort", "flip", "fliplr", "flipud", "roll", "take", "unique", "partition", "permutation", "shuffle", "msort", "cumsum", "maximum.accumulate", "accumulate")
+    bad_al = []
+    n_al = 0
+    for st in walk_no_nested(f.node):
+        if isinstance(st, ast.Assign) and len(st.targets) == 1 and isinstance(st.targets[0], ast.Name) and st.targets[0].id in (ytau, ytest, taus):
+            n_al += 1
+            v = st.value
+            inner = v
+            shape_only = False
+            while True:
+                if isinstance(inner, ast.Call) and isinstance(inner.func, ast.Attribute) and inner.func.attr in ("reshape", "ravel", "flatten", "squeeze", "copy", "astype") \
+                        and not (dotted(inner.func) or "").startswith("np."):
+                    if inner.func.attr == "astype":
+                        break
+                    inner = inner.func.value
+                    continue
+                if isinstance(inner, ast.Call) and (dotted(inner.func) or "") in ("np.asarray", "np.array", "np.atleast_1d", "np.atleast_2d", "np.reshape", "np.ravel", "np.squeeze", "np.asanyarray") and inner.args:
+                    inner = inner.args[0]
+                    continue
+                if isinstance(inner, ast.Subscript) and isinstance(inner.slice, ast.Tuple) and all(
+                        (isinstance(x, ast.Slice) and x.lower is None and x.upper is None and x.step is None) or (isinstance(x, ast.Constant) and x.value is None)
+                        or norm(x) == "np.newaxis" for x in inner.slice.elts):
+                    inner = inner.value          # x[:, None] / x[:, np.newaxis]
+                    continue
+                break
+            if isinstance(inner, ast.Name) and inner.id == st.targets[0].id:
+                continue
+            names = [(dotted(c.func) or (c.func.attr if isinstance(c.func, ast.Attribute) else "")).split(".")[-1] for c in ast.walk(v) if isinstance(c, ast.Call)]
+            steps = [norm(x) for x in ast.walk(v) if isinstance(x, ast.Slice) and x.step is not None]
+            if any(nm in REORDER for nm in names) or steps:
+                bad_al.append("%s = %s" % (st.targets[0].id, norm(v)[:70]))
+            else:
+                raise AnalysisError("quantile_score: re-binding `%s = %s` of an argument is not understood" % (st.targets[0].id, norm(v)[:70]))
+    ctx.ob("quantile_score.alignment", not bad_al, "re-bindings of the arguments that change the order of their elements: %s (%d re-bindings looked at)" % (bad_al or "none", n_al),
+           "the arguments are only re-shaped: column j of y_tau belongs to taus[j], row i to y_test[i]", node=f.node, func=f)
 
 
 def rule_shapes(ctx):
